@@ -1,6 +1,6 @@
 (** * C14 - NFT draw picks min(available, payers) distinct payers; fees reconcile. *)
 From Coq Require Import Permutation.
-From LP Require Import Proofs.Tactics Proofs.LedgerBase Proofs.Gates Proofs.Frames Proofs.Confirm Proofs.Nft Proofs.Examples Proofs.NftLedger.
+From LP Require Import Proofs.Tactics Proofs.LedgerBase Proofs.Gates Proofs.Frames Proofs.Confirm Proofs.Nft Proofs.Examples Proofs.NftLedger Proofs.Setup Proofs.SetupNft.
 Open Scope N_scope.
 
 (** paying the fee: only in the confirmation window, only after the SFT set-up, only with confirmed
@@ -109,6 +109,22 @@ Theorem C14_fee_drained : forall w,
   FeeInv w -> nft_payers (st w) = [] -> claimable_nft (st w) = 0 -> fee_held w = 0.
 Proof. exact FeeInv_drained. Qed.
 
+(** the fee ledger along every set-up history of launchpad-with-nft from its deployment (fee asset
+    different from the payment token): allocation, deposit, ticket confirmations, fee payments,
+    blacklisting with ticket and fee refunds, pause, configuration transactions in any order *)
+Theorem C14_fee_from_deployment : forall (H : list N -> list N) w, setup_reach_nft H w ->
+  FeeInv w /\ nft_winners (st w) = [] /\ claimable_nft (st w) = 0.
+Proof.
+  intros H w Hr. destruct (setup_reach_nft_PreN H w Hr) as (l & _ & Hi).
+  exact (conj (ni_fee _ Hi) (conj (ni_win _ Hi) (ni_cn _ Hi))).
+Qed.
+
+Example C14_setup_nonvacuous :
+  setup_reach_nft sha256 nft_confirmed /\
+  (nft_payers (st nft_confirmed), confirmed (st nft_confirmed) 2, confirmed (st nft_confirmed) 3,
+   bal nft_confirmed sc_addr 2 0, bal nft_confirmed sc_addr 0 0) = ([2], 3, 0, 7, 3000).
+Proof. exact nft_confirmed_reachable. Qed.
+
 Example C14_nonvacuous :
   swap_remove 3 [2; 3; 4; 5] = [2; 5; 4] /\ swap_remove 5 [2; 3; 4; 5] = [2; 3; 4] /\ swap_remove 9 [2; 3] = [2; 3] /\
   claimable_nft (set_claimable_nft (world0 (state0 <| nft_amt := 50 |> <| nft_winners := [4; 7] |>))).(st) = 100.
@@ -126,4 +142,6 @@ Print Assumptions C14_fee_draw.
 Print Assumptions C14_fee_claim.
 Print Assumptions C14_fee_owner.
 Print Assumptions C14_fee_drained.
+Print Assumptions C14_fee_from_deployment.
+Print Assumptions C14_setup_nonvacuous.
 Print Assumptions C14_nonvacuous.
